@@ -85,7 +85,7 @@ Definition judge (idx : Z) (S : schema) (root : list Z) (m : pmsg) (prev : list 
       if ((err =? 1) || (match o with OUnset _ => err =? 0 | _ => false end)) && unchanged then Some (m, prev) else None
     end in
   match good with
-  | Some st => (VOk, Some st)
+  | Some st => ((if coded_agrees S root prev co err ex res then VOk else VDrift 1), Some st)
   | None =>
     (* deviation: is it exactly what the code as written does in one of the recorded defect classes? *)
     match known_class S root prev co err ex res with
@@ -109,6 +109,7 @@ Fixpoint run_1001 (n : nat) (idx : Z) (S : schema) (root : list Z) (md : mdesc) 
     let continue (v : verdict * option (pmsg * list Z)) (rest : list field) :=
       match v with
       | (VOk, Some (m', prev')) => run_1001 n' (idx + 1) S root md m' prev' rest
+      | (VDrift c, Some (m', prev')) => match run_1001 n' (idx + 1) S root md m' prev' rest with VOk => VDrift c | o => o end
       | (VKnown id, Some (m', prev')) => first_nonok (VKnown id) (match run_1001 n' (idx + 1) S root md m' prev' rest with
                                                                   | VBad c d => VBad c d | _ => VKnown id end)
       | (o, _) => o
@@ -169,8 +170,13 @@ Definition check_1002 (fs : list field) : verdict :=
       if negb (wf_msg sc root m0) then VSkip else
       let good := (err =? 0) && (acc =? 1) &&
                   match decode_top sc root outb with Some mo => msg_eqv mo m0 | None => false end in
-      if good then VOk
-      else match known_load sc root b0 rec err outb with
+      if good then
+        (if negb (rec =? 1) then VOk
+         else match coded_load_marshal sc root b0 with
+              | EOk o => if bytes_eqb o outb then VOk else VDrift 2
+              | _ => VDrift 2
+              end)
+      else match known_load sc root m0 b0 rec err outb with
            | Some id => VKnown id
            | None => VBad 200 [FB (encode_msg m0)]
            end
